@@ -22,7 +22,7 @@ import random
 import core
 import gen
 
-PROOF_MODULES = ["UnytProofs.C12", "UnytProofs.C12Alias", "UnytProofs.C12Macro"]
+PROOF_MODULES = ["UnytProofs.C12", "UnytProofs.C12Alias", "UnytProofs.C12Macro", "UnytProofs.C12AliasMacro"]
 
 SYM, SYM2 = "foo", "zot"
 
